@@ -696,12 +696,12 @@ theorem step_laterCb (st : St) (a : Nat) : SigStep st (laterCb st a) := by
     · exact step_processNotify _ _
     · exact SigStep.refl _
 
-theorem step_laterLoop (l : List Nat) : ∀ st : St, SigStep st (laterLoop st l) := by
+theorem step_laterLoopT (l : List Nat) : ∀ st : St, SigStep st (laterLoopT st l).1 := by
   induction l with
   | nil => intro st; exact SigStep.refl st
   | cons a rest ih =>
     intro st
-    unfold laterLoop
+    unfold laterLoopT
     split
     · exact SigStep.refl _
     · split
@@ -711,6 +711,8 @@ theorem step_laterLoop (l : List Nat) : ∀ st : St, SigStep st (laterLoop st l)
         · split
           · exact (step_laterCb _ _).trans (g2_fail _ _).step
           · exact ((step_laterCb _ _).trans (g2_free _ a).step).trans (ih _)
+
+theorem step_laterLoop (l : List Nat) (st : St) : SigStep st (laterLoop st l) := step_laterLoopT l st
 
 theorem step_timerLoopT (fuel : Nat) : ∀ (st : St) (now : TV) (this : Option Nat), SigStep st (timerLoopT fuel st now this).1 := by
   induction fuel with
